@@ -540,5 +540,170 @@ def r_class(s, ind):
     return out + body
 
 
+# ---------------------------------------------------------------- block scoping
+# Mamba is block scoped: a definition in a nested block (or a second definition of
+# the same name) introduces a NEW variable that ends with its block; Python's
+# function scoping would let it leak.  The reference rendering therefore renames
+# every shadowing definition to a fresh Python name for the rest of its block.
+
+class _Scope:
+    def __init__(self):
+        self.counter = {}
+
+    def fresh(self, name):
+        k = self.counter.get(name, 0) + 1
+        self.counter[name] = k
+        return "%s__%d" % (name, k)
+
+
+def _rn_expr(e, env):
+    if not isinstance(e, tuple):
+        return e
+    k = e[0]
+    if k == 'var':
+        return ('var', env.get(e[1], e[1]))
+    if k in ('lit', 'none'):
+        return e
+    if k == 'raw':
+        return e
+    if k == 'fstr':
+        return ('fstr', [p if isinstance(p, str) else _rn_expr(p, env) for p in e[1]])
+    out = [k]
+    for x in e[1:]:
+        if isinstance(x, tuple):
+            out.append(_rn_expr(x, env))
+        elif isinstance(x, list):
+            out.append([_rn_expr(y, env) if isinstance(y, tuple) else y for y in x])
+        else:
+            out.append(x)
+    return tuple(out)
+
+
+def _rn_block(stmts, env, sc, bound):
+    """env: name -> python name (copied per block); bound: names visible (defined) in enclosing scopes"""
+    env = dict(env)
+    bound = set(bound)
+    out = []
+    for s in stmts:
+        out.append(_rn_stmt(s, env, sc, bound))
+    return out
+
+
+def _bind(name, env, sc, bound):
+    """a definition of `name` at this point: fresh python name if it shadows something visible"""
+    if name in bound:
+        new = sc.fresh(name)
+    else:
+        new = name
+    env[name] = new
+    bound.add(name)
+    return new
+
+
+def _rn_arms(arms, env, sc, bound, rn_pat=True):
+    out = []
+    for arm in arms:
+        pat, body = arm[0], arm[1]
+        out.append((pat if pat == '_' else _rn_expr(pat, env), _rn_block(body, env, sc, bound)) + tuple(arm[2:]))
+    return out
+
+
+def _rn_stmt(s, env, sc, bound):
+    k = s[0]
+    if k == 'def':
+        _, name, ty, ex, fin = s
+        ex2 = None if ex is None else _rn_expr(ex, env)
+        return ('def', _bind(name, env, sc, bound), ty, ex2, fin)
+    if k == 'deftup':
+        ex2 = _rn_expr(s[2], env)
+        return ('deftup', [_bind(n, env, sc, bound) for n in s[1]], ex2)
+    if k == 'assign':
+        return ('assign', _rn_expr(s[1], env), _rn_expr(s[2], env))
+    if k == 'aug':
+        return ('aug', s[1], _rn_expr(s[2], env), _rn_expr(s[3], env))
+    if k in ('print', 'expr', 'raise'):
+        return (k, _rn_expr(s[1], env))
+    if k == 'return':
+        return ('return', None if s[1] is None else _rn_expr(s[1], env))
+    if k in ('pass', 'comment', 'blank', 'rawstmt'):
+        return s
+    if k == 'if':
+        return ('if', _rn_expr(s[1], env), _rn_block(s[2], env, sc, bound), None if s[3] is None else _rn_block(s[3], env, sc, bound))
+    if k == 'match':
+        return ('match', _rn_expr(s[1], env), _rn_arms(s[2], env, sc, bound))
+    if k == 'while':
+        return ('while', _rn_expr(s[1], env), _rn_block(s[2], env, sc, bound))
+    if k == 'for':
+        it = _rn_expr(s[2], env)
+        env2, bound2 = dict(env), set(bound)
+        v = _bind(s[1], env2, sc, bound2)
+        return ('for', v, it, _rn_block(s[3], env2, sc, bound2))
+    if k == 'fun':
+        return _rn_fun(s, env, sc, bound)
+    if k == 'class':
+        _, name, cargs, parents, members = s
+        ms = []
+        for m in members:
+            if m[0] == 'field':
+                ms.append(('field', m[1], m[2], None if m[3] is None else _rn_expr(m[3], env), m[4]))
+            elif m[0] == 'fun':
+                ms.append(_rn_fun(m, env, sc, bound, method=True))
+            elif m[0] == 'init':
+                env2, bound2 = dict(env), set(bound)
+                for prm in m[1]:
+                    env2[prm[0]] = prm[0]
+                    bound2.add(prm[0])
+                ms.append(('init', m[1], _rn_block(m[2], env2, sc, bound2)))
+            else:
+                ms.append(m)
+        return ('class', name, cargs, [(pn, None if pa is None else [_rn_expr(a, {}) for a in pa]) for pn, pa in parents], ms)
+    if k == 'handle':
+        inner = _rn_stmt_noscope(s[1], env, sc, bound)
+        arms = []
+        for arm in s[2]:
+            v, cls, body = arm[0], arm[1], arm[2]
+            env2, bound2 = dict(env), set(bound)
+            v2 = _bind(v, env2, sc, bound2)
+            arms.append((v2, cls, _rn_block(body, env2, sc, bound2)) + tuple(arm[3:]))
+        # the definition made by the inner statement is visible afterwards
+        return ('handle', inner, arms)
+    if k == 'defif':
+        _, name, ty, c, th, el = s
+        c2, th2, el2 = _rn_expr(c, env), _rn_block(th, env, sc, bound), _rn_block(el, env, sc, bound)
+        return ('defif', _bind(name, env, sc, bound), ty, c2, th2, el2)
+    if k == 'defmatch':
+        _, name, ty, ex, arms = s
+        ex2, arms2 = _rn_expr(ex, env), _rn_arms(arms, env, sc, bound)
+        return ('defmatch', _bind(name, env, sc, bound), ty, ex2, arms2)
+    raise ValueError('scope: ' + repr(s))
+
+
+def _rn_stmt_noscope(s, env, sc, bound):
+    return _rn_stmt(s, env, sc, bound)
+
+
+def _rn_fun(s, env, sc, bound, method=False):
+    name, params, ret, raises, body = s[1], s[2], s[3], s[4], s[5]
+    env2, bound2 = dict(env), set(bound)
+    ps = []
+    for prm in params:
+        default = prm[2] if len(prm) > 2 else None
+        d2 = None if default is None else _rn_expr(default, env)
+        ps.append((prm[0], prm[1], d2) + tuple(prm[3:]))
+    for prm in params:
+        # a parameter is a new variable of the function body; python scoping already separates it
+        env2[prm[0]] = prm[0]
+        bound2.add(prm[0])
+    if method:
+        env2['self'] = 'self'
+    # a local definition that shadows a module-level name is a new local in Python too, but a READ of the
+    # outer variable before the local definition would be an UnboundLocalError: rename locals that shadow
+    return ('fun', name, ps, ret, raises, _rn_block(body, env2, sc, bound2)) + tuple(s[6:])
+
+
+def scope_rename(prog):
+    return _rn_block(prog, {}, _Scope(), set())
+
+
 def to_ref(prog):
-    return '\n'.join(r_block(prog, 0, None)) + '\n'
+    return '\n'.join(r_block(scope_rename(prog), 0, None)) + '\n'
